@@ -587,9 +587,9 @@ func init() {
 		Level: "model_checking",
 		Rule: "(a) every map iteration order (explored exhaustively through the map-order choice point of the rewritten package) of every range-over-map executed by Bind, for the binding x target space of C15 and for Unmarshal of programs whose keys collide on one field, hold several faulty fields, or hold several named inner blocks: target and error text must be identical for all orders; " +
 			"(b) every goroutine schedule with <=B preemptions (quick 1, thorough 2) of Parse, ParseFile (3 chunks) and Interpret on corpus inputs (valid, several diagnostics, lexical failure): dump bytes, diagnostics, output, blocks, binding identical on all schedules; " +
-			"(c) every history of <=L calls (quick 3, thorough 4) over a 24-call alphabet (one-token Progs executed with trace, a result with empty blocks whose maps the caller then writes to, ParseFile with a data+error read, a Prog re-loaded in place from its own dump and executed, a second shared Prog with ~3 kB of code executed and dumped, another mid-size compilation, Parse of 3 inputs, Interpret, Execute/Dump of one shared Prog, LoadProg+Execute, Unmarshal good/bad, InterpretFile, Interpret with all options, a deep-stack/deep-nesting program, statistics of a shallow program and of the shared Prog): each call's result equals its result as the first call of a fresh state, and Dump(p) is unchanged by Execute(p); histories that start in a fresh process (each of three same-named struct types bound first) must give the same Bind outcome table; " +
+			"(c) every history of <=L calls (quick 3, thorough 4) over a 24-call alphabet (one-token Progs executed with trace, a result with empty blocks whose maps the caller then writes to, ParseFile with a data+error read, a Prog re-loaded in place from its own dump and executed, a second shared Prog with ~3 kB of code executed and dumped, another mid-size compilation, Parse of 3 inputs, Interpret, Execute/Dump of one shared Prog, LoadProg+Execute, Unmarshal good/bad, InterpretFile, Interpret with all options, a deep-stack/deep-nesting program, statistics of a shallow program and of the shared Prog): each call's result equals its result as the first call of a fresh state, and Dump(p) is unchanged by Execute(p); histories that start in a fresh process (each of three same-named struct types bound first) must give the same Bind outcome table; long histories (sub-check c16.soak: 3 000 ... 70 000 calls in one process, thorough four times as many: Interpret / Parse+Dump+LoadProg+Execute / ParseFile of a source of its own per call, one Prog executed again and again, one Prog re-loaded in place from two alternating dumps, Unmarshal into thousands of struct types of their own, diagnostics on a line of their own) are judged call by call against closed-form expectations, with the first inputs and the Progs kept from the start re-visited at every power of two; " +
 			"(d) supplementary (sampling): a digest over all first-call results from fresh processes with GOMAXPROCS 1/2/16 (different hash seeds) must be identical.",
-		Subs:           []*fw.Sub{subC16Map, subC16Unm, subC16Sched, subC16Hist, subC16Fresh, subC16Slices},
+		Subs:           []*fw.Sub{subC16Map, subC16Unm, subC16Sched, subC16Hist, subC16Fresh, subC16Slices, subC16Soak},
 		BudgetQuick:    100,
 		BudgetThorough: 1500,
 		Assumptions: []string{"hash seeds are observable only through map iteration order and CPU counts only through scheduling; both are enumerated instead of sampled",
@@ -600,6 +600,10 @@ func init() {
 			}
 			for _, api := range []string{"Parse", "ParseFile", "Interpret", "InterpretFile", "Unmarshal", "UnmarshalFile", "LoadProg", "Execute"} {
 				c.Do(subC16Slices, &c16Slices{API: api})
+			}
+			// (c') long histories: tens of thousands of calls in one process, each judged by a closed-form expectation
+			for _, sc := range c16SoakCases(c.Thorough()) {
+				c.Do(subC16Soak, sc)
 			}
 			// (c) histories
 			L := 3
@@ -691,7 +695,7 @@ func init() {
 		},
 		Finish: func(m *fw.Merged) []string {
 			var v []string
-			for _, o := range []string{"history-independent", "unmarshal-several-orders", "schedule-independent:parsefile", "several-map-orders"} {
+			for _, o := range []string{"history-independent", "long-history-independent", "unmarshal-several-orders", "schedule-independent:parsefile", "several-map-orders"} {
 				if m.Outcomes[o] == 0 {
 					v = append(v, "vacuous: outcome class never observed: "+o)
 				}
